@@ -171,6 +171,21 @@ def deep_vocab():
                                    "SUB", "LT", "ADD", "POP", "MSTORE", "MSTORE8", "SSTORE", "LOG0", "LOG1", "PUSH 5 ADD", "DUP1"]]
 
 
+def warm_vocab():
+    """account accesses and storage accesses on shared values (the access lists behind warm/cold pricing are separate
+    for addresses and for storage keys), with the stack moves that let a back-end reorder them"""
+    return [frag(x, "*") for x in ["DUP1 BALANCE", "DUP2 BALANCE", "DUP1 SLOAD", "DUP2 SLOAD", "DUP3 SLOAD", "DUP1 EXTCODESIZE",
+                                   "DUP1 EXTCODEHASH", "DUP2 DUP2 SSTORE", "SWAP1", "SWAP2", "SWAP3", "SHL", "ADD", "POP", "DUP1"]]
+
+
+def warm_blocks(n3, n4, seed):
+    import corpus
+    b3, _ = enumerate_blocks(warm_vocab(), [["*", "*"], ["*", "*", "*"]], 6)
+    b4, _ = enumerate_blocks(warm_vocab(), [["*", "*", "*", "*"]], 6)
+    keep = lambda t: ("BALANCE" in t or "EXTCODE" in t) and ("SLOAD" in t or "SSTORE" in t)
+    return corpus.sample([t for t in b3 if keep(t)], n3, seed) + corpus.sample([t for t in b4 if keep(t)], n4, seed)
+
+
 def deep_blocks(n3, seed):
     """all pairs and n3 sampled triples over deep_vocab (input depth up to 17)"""
     import corpus
